@@ -28,6 +28,9 @@ THEOREMS = [
     "Cog.Sem.JSOut.C12_prefix_loop_never_terminated",
     "Cog.Sem.JSOut.describes_sound",
     "Cog.Sem.JSOut.emitDefs_closed",
+    # block of the c01-front builder (source JSON Schema → front-end → emitted schema)
+    "Cog.Sem.JSOut.FE.C12_jsonschema_source_validates_emitted_partial",
+    "Cog.Sem.JSOut.FE.C12_jsonschema_source_validates_emitted_counterexample",
 ]
 
 
@@ -360,6 +363,37 @@ def replay(c, hb):
     sys.exit(1 if c.violation_lines else 0)
 
 
+# ---- BEGIN front-end → emitted-schema tie (owner: c01-front builder; verifkit/front_emit.py) ----------
+def front_emit_tie(c):
+    """SOURCE JSON Schema → real front-end → real jsonschema jenny: instances of C12_jsonschema_source_validates_emitted_partial on
+       the REAL front-end IR, the model's emitted-schema verdict against the reference validator on the REAL emitted schema, and
+       the measured equivalence `valid against the source` ⇔ `valid against the emitted schema` on the fragment FragJS (forward
+       direction outside the exclusions of the known findings C12/nullable/…, C12/any/…; backward direction measured only)"""
+    from verifkit import front_emit
+    st, bad, witness_ok, err = front_emit.run(c)
+    c.oblige("front-end → emitted-schema stream runs (c01-front, verb jsfc12)", err is None, err or "")
+    if err is not None:
+        return
+    g = lambda k: st.get(k, 0)
+    for kind in ("instance", "emitted-verdict", "forward", "backward"):
+        for b in bad.get(kind, [])[:2]:
+            c.violation(b)
+    c.oblige("C12_jsonschema_source_validates_emitted_partial: instances on the REAL front-end IR hold (%d/%d documents with every hypothesis)" % (g("concl"), g("inst")),
+             g("concl") == g("inst") and g("inst") >= 100 and g("bad_replies") == 0)
+    c.oblige("model verdict on the model-emitted schema = reference validator on the schema the REAL jenny emitted (%d/%d documents of fully modelled cases)" % (g("emitted_verdicts_agree"), g("emitted_verdicts")),
+             g("emitted_verdicts_agree") == g("emitted_verdicts") and g("emitted_verdicts") >= 500)
+    c.oblige("FragJS, real code: source-valid documents outside the known exclusions validate against the REAL emitted schema (%d/%d; %d source-valid documents excluded, %d of them rejected)"
+             % (g("forward_ok"), g("forward"), g("frag_source_valid_excluded"), g("frag_source_valid_excluded_rejected")),
+             g("forward_ok") == g("forward") and g("forward") >= 100)
+    c.oblige("FragJS, real code (measured, not proved): documents the REAL emitted schema accepts are valid against the source schema (%d/%d)" % (g("backward_ok"), g("backward")),
+             g("backward_ok") == g("backward") and g("backward") >= 100)
+    c.oblige("witness of C12_jsonschema_source_validates_emitted_counterexample replays on the real front-end and jenny (pinnullreq: {\"x\": null} source-valid, rejected by the emitted schema, `sat` false)", witness_ok)
+    if witness_ok:
+        c.known_hit["C12/nullable/not-represented-null-rejected"] = c.known_hit.get("C12/nullable/not-represented-null-rejected", 0) + 1
+    c.cov["front_emit"] = dict(st)
+# ---- END front-end → emitted-schema tie ---------------------------------------------------------------
+
+
 def main():
     c = Check("C12")
     # known findings come from /verif/known_findings.json only (Check loads the entries of this property)
@@ -400,6 +434,7 @@ def main():
     if "c12-lab" in c.cov.get("c12", {}):
         c.cov["c12"]["c12-lab(default)"] = c.cov["c12"].pop("c12-lab")
     run_stream(c, hb, "c12-lab", n=n // 2, docs=docs, seed=c.seed + 1000, tier=c.tier, switches="-any")
+    front_emit_tie(c)   # source JSON Schema → front-end → emitted schema (instances on the real IR, real emitter, real validator)
     c.finish("cd /verif/lean && lake build Cog.Props.C12 drv && lake env lean <#print axioms of the C12 theorems>",
              "pinned sets (one per recorded finding) + one watchdog run of the formerly non-terminating emission (foreign cycles are always run under a watchdog); random multi-package IR (every Kind, cross-package references, same-named objects) through the jennies vs the Lean emitter; Src terms x 3 input formats through the real pipeline: emitted JSON Schema / OpenAPI files vs the Lean emitter, independent loaders, $ref / presence / carried-over oracles, and every source-valid document re-encoded by real generated Go code validated against the emitted schema (santhosh + python jsonschema vs Lean jsValid; hypotheses of the partial theorem evaluated per document). non-trivial = emitted document > 600 bytes that the model reproduces, or validated document with >= 6 nested values")
 
